@@ -106,7 +106,8 @@ def _skey(n):
 
 # ---- pattern space -------------------------------------------------------------------------------------
 RES = ["a", "a$", "b|ab", ".*", "", "a b", "a  b$", "\\d", "\\\\d", "a\\\\", 'a\\"', '\\"']  # incl. \d (a digit), \\d (backslash + d), a\\ (ends in an escaped backslash)
-CLASSES = ["*", ("PA",), ("PB",), ("PC",), ("PA", "PC"), ("PC", "PB")]
+# incl. a class listed together with its own subclass (both orders) and a repeated class
+CLASSES = ["*", ("PA",), ("PB",), ("PC",), ("PA", "PC"), ("PC", "PB"), ("PA", "PB"), ("PB", "PA"), ("PB", "PC", "PA"), ("PA", "PA")]
 
 
 def T(classes="*", *fields):
